@@ -435,26 +435,26 @@ def rule_tokenizer_fsm(ck, repo, R):
     tail = f.node.body[loop_idx + 1:]
     ifs = [s for s in tail if isinstance(s, ast.If)]
     ck.require(ifs, '_tokenize: end-of-input ladder not found')
-    handled = {}
-    for test, blk in if_chain(ifs[0]):
-        if test is None:
-            continue
-        t = src(test)
-        states = set()
-        if isinstance(test, ast.Compare) and src(test.left) == 'token_type':
-            c = test.comparators[0]
-            if isinstance(test.ops[0], ast.Eq) and isinstance(c, ast.Constant):
-                states = {c.value}
-            elif isinstance(test.ops[0], ast.In):
+    from .r_query import _ev, _Unknown
+
+    def must_raise(stmts, state):
+        """does every path through the statements after the loop end in a raise when token_type == state? (tests over token_type are
+        evaluated, whatever their spelling; a test over anything else is explored both ways)"""
+        for i, st in enumerate(stmts):
+            if isinstance(st, ast.Raise):
+                return True
+            if isinstance(st, ast.Return):
+                return False
+            if isinstance(st, ast.If):
+                rest = stmts[i + 1:]
                 try:
-                    states = set(ast.literal_eval(c))
-                except Exception:
-                    pass
-        raises = any(isinstance(x, ast.Raise) for x in ast.walk(ast.Module(body=blk, type_ignores=[])))
-        for s in states:
-            handled[s] = raises
-    for state, name in ((5, 'unterminated [atom'), (7, 'dangling %'), (11, 'dangling ! (NOT bond)'), (12, 'dangling ; (ring bond prefix)')):
-        ck.decide(handled.get(state) is True, R, f'state-{state}', name,
+                    v = bool(_ev(st.test, {'token_type': state, 'token': ''} if state == 7 else {'token_type': state}))
+                    return must_raise((st.body if v else st.orelse) + rest, state)
+                except _Unknown:
+                    return must_raise(st.body + rest, state) and must_raise(st.orelse + rest, state)
+        return False
+    for state, name in ((5, 'unterminated [atom'), (7, 'dangling % (no digits)'), (11, 'dangling ! (NOT bond)'), (12, 'dangling ; (ring bond prefix)')):
+        ck.decide(must_raise(list(tail), state), R, f'state-{state}', name,
                   f'_tokenize: input ending in state {state} ({name}) is not rejected after the loop: the incomplete token is silently dropped',
                   file=f.file, line=ifs[0].lineno, func=f.qualname)
     # states that set token_type without emitting a token inside the loop = continuation-awaiting; make sure the list above is complete
